@@ -1,61 +1,99 @@
 ------------------------------- MODULE MC_Render -------------------------------
 (* Models for C19 (Render.tla).  Mode selects the part:                           *)
-(*  "tree"   histories of <= MaxSets Sets on the whole parameter tree, valuation   *)
-(*           restricted to the fields MCFields, value tokens MCValues;             *)
+(*  "tree"   histories of <= MaxSets actions on the parameter tree: Set(n, f, v)   *)
+(*           and (WithReplace) Replace(n, k) of a nested group by a fresh one;     *)
+(*           valuation restricted to the fields MCFields, value tokens MCValues;   *)
 (*  "window" one state per (obstacle descriptor, begin, end); Widen moves end;     *)
 (*  "total"  one state per (archetype, window) - generation only.                  *)
+(* The tree model is implementation-shaped in one respect: DEV_CachedSubParams     *)
+(* models a parameter group that remembers its nested groups from construction     *)
+(* time, so that a replaced group no longer receives what is set on its parent     *)
+(* (with the constant TRUE, TLC must refute PropContract; see DEV_Render_1.cfg).   *)
 (* GEN configurations print the cases executed on the real code.                   *)
 EXTENDS Render
 
-CONSTANTS Mode, MCFields, MCValues, MaxSets, MCSub, WMax
+CONSTANTS Mode, MCFields, MCValues, MaxSets, MCSub, WMax, WithReplace, DEV_CachedSubParams
 
-VARIABLES val, hist,        \* tree: valuation, sequence of Sets applied so far
+VARIABLES val, hist,        \* tree: valuation, sequence of actions applied so far
+          stale,            \* tree: slots whose group was replaced after the construction of the parent
           o, b, e,          \* window: descriptor, time_begin, time_end
           a, w              \* total: archetype, window name
-vars == <<val, hist, o, b, e, a, w>>
+vars == <<val, hist, stale, o, b, e, a, w>>
 
 Val0    == [p \in Pairs(MCFields) |-> "default"]
 NoDesc  == [kind |-> "env", t0 |-> 0, n |-> 0]
-(* Sets are issued at the root and at every node of the subtree MCSub ("" = at every node of the tree) *)
-ActNodes == IF MCSub = "" THEN Nodes ELSE {<<>>} \cup {m \in Nodes : Len(m) >= 1 /\ m[1] = MCSub}
-Acts    == [n : ActNodes, f : MCFields, v : MCValues]
+(* actions are issued at the root and at every node of the subtree MCSub ("" = at every node of the tree,
+   "reduced" = root, dynamic_obstacle and one deep node) *)
+ReducedNodes == {<<>>, <<"dynamic_obstacle">>, <<"dynamic_obstacle", "vehicle_shape">>}
+ActNodes == IF MCSub = "" THEN Nodes ELSE IF MCSub = "reduced" THEN ReducedNodes
+            ELSE {<<>>} \cup {m \in Nodes : Len(m) >= 1 /\ m[1] = MCSub}
+Acts    == [t : {"set"}, n : ActNodes, f : MCFields, v : MCValues]
+RepActs == {[t |-> "rep", n |-> s[1], k |-> s[2], inh |-> i] :
+                s \in {x \in Slots : x[1] \in ActNodes /\ CleanSlot(x[1], x[2])}, i \in BOOLEAN}
+IsSet(x) == x.t = "set"
+(* the contract-level effect, and the effect of an implementation that propagates to the groups it was constructed with *)
 Apply(vl, act) == SetOp(vl, act.n, act.f, act.v)
+ImplSet(vl, st, act) ==
+    IF ~DEV_CachedSubParams THEN Apply(vl, act)
+    ELSE LET T == Targets(act.n, act.f) IN
+         [p \in DOMAIN vl |-> IF p[2] = act.f /\ p[1] \in T /\ ~\E s \in st : IsPrefix(s, p[1]) /\ ~IsPrefix(s, act.n)
+                               THEN act.v ELSE vl[p]]
 
-Init == /\ val = (IF Mode = "tree" THEN Val0 ELSE <<>>) /\ hist = <<>>
+Init == /\ val = (IF Mode = "tree" THEN Val0 ELSE <<>>) /\ hist = <<>> /\ stale = {}
         /\ IF Mode = "window" THEN o \in Descriptors /\ b \in 0..WMax /\ e \in b..WMax ELSE o = NoDesc /\ b = 0 /\ e = 0
         /\ IF Mode = "total" THEN a \in Archetypes /\ w \in Windows ELSE a = "empty" /\ w = "default"
 
 DoSet == /\ Mode = "tree" /\ Len(hist) < MaxSets
-         /\ \E act \in Acts : val' = Apply(val, act) /\ hist' = Append(hist, act)
-         /\ UNCHANGED <<o, b, e, a, w>>
+         /\ \E act \in Acts : val' = ImplSet(val, stale, act) /\ hist' = Append(hist, act)
+         /\ UNCHANGED <<stale, o, b, e, a, w>>
+DoReplace == /\ Mode = "tree" /\ WithReplace /\ Len(hist) < MaxSets
+             /\ \E act \in RepActs : /\ val' = ReplaceOp(val, act.n, act.k, act.inh)
+                                       /\ hist' = Append(hist, act)
+                                       /\ stale' = {s \in stale : ~IsPrefix(Append(act.n, act.k), s)} \cup {Append(act.n, act.k)}
+             /\ UNCHANGED <<o, b, e, a, w>>
 Widen == /\ Mode = "window" /\ e < WMax /\ e' = e + 1
-         /\ UNCHANGED <<val, hist, o, b, a, w>>
-Next == DoSet \/ Widen
+         /\ UNCHANGED <<val, hist, stale, o, b, a, w>>
+Next == DoSet \/ DoReplace \/ Widen
 Spec == Init /\ [][Next]_vars
 
 (* ------------------------------ laws, part (1) ------------------------------ *)
 LastAct == hist[Len(hist)]
-(* every step satisfies the contract predicate the trace specification uses *)
-PropContract   == [][Mode = "tree" => LET x == hist'[Len(hist')] IN SetPost(val, val', x.n, x.f, x.v)]_vars
+(* every step satisfies the contract predicate the trace specification uses: a Set reaches every CURRENT descendant
+   declaring the field - also the groups assigned by earlier Replaces - and changes nothing else; a Replace changes
+   nothing outside the new group *)
+PropContract   == [][Mode = "tree" => LET x == hist'[Len(hist')] IN
+                                          IF IsSet(x) THEN SetPost(val, val', x.n, x.f, x.v) ELSE ReplacePost(val, val', x.n, x.k)]_vars
 (* Set is idempotent: applying the last Set once more changes nothing *)
-InvIdempotent  == (Mode = "tree" /\ Len(hist) >= 1) => Apply(val, LastAct) = val /\ Idempotent(Val0, LastAct.n, LastAct.f, LastAct.v)
+InvIdempotent  == (Mode = "tree" /\ Len(hist) >= 1 /\ IsSet(LastAct)) =>
+                      Apply(val, LastAct) = val /\ Idempotent(Val0, LastAct.n, LastAct.f, LastAct.v)
 (* two Sets on different fields commute (from the default valuation: the state reached equals the one of the swapped history) *)
-InvCommute     == (Mode = "tree" /\ Len(hist) = 2 /\ hist[1].f # hist[2].f) =>
+InvCommute     == (Mode = "tree" /\ Len(hist) = 2 /\ IsSet(hist[1]) /\ IsSet(hist[2]) /\ hist[1].f # hist[2].f) =>
                       /\ val = Apply(Apply(Val0, hist[2]), hist[1])
                       /\ Commute(Val0, hist[1].n, hist[1].f, hist[1].v, hist[2].n, hist[2].f, hist[2].v)
-(* Set at the root reaches every node that declares the field *)
-InvRootReaches == (Mode = "tree" /\ Len(hist) >= 1 /\ LastAct.n = <<>>) =>
+(* Set at the root reaches every node that declares the field, whatever happened before *)
+InvRootReaches == (Mode = "tree" /\ Len(hist) >= 1 /\ IsSet(LastAct) /\ LastAct.n = <<>>) =>
                       /\ \A m \in Declaring[LastAct.f] : val[<<m, LastAct.f>>] = LastAct.v
                       /\ RootReaches(Val0, LastAct.f, LastAct.v)
 (* Sets on the same field: the later one wins on the common targets, the earlier survives elsewhere *)
-InvLastWins    == (Mode = "tree" /\ Len(hist) = 2 /\ hist[1].f = hist[2].f) =>
+InvLastWins    == (Mode = "tree" /\ Len(hist) = 2 /\ IsSet(hist[1]) /\ IsSet(hist[2]) /\ hist[1].f = hist[2].f) =>
                       \A m \in Declaring[hist[1].f] :
                           val[<<m, hist[1].f>>] = IF IsPrefix(hist[2].n, m) THEN hist[2].v
                                                   ELSE IF IsPrefix(hist[1].n, m) THEN hist[1].v ELSE "default"
-(* table sanity: every node has a class, paths are unique, every time-window field is declared everywhere *)
+(* a Set after a Replace makes the choice of the Replace (built values / inherited values) invisible on its targets,
+   and a Set before a Replace survives below the new group only as an inherited value *)
+InvSetAfterReplace == (Mode = "tree" /\ Len(hist) >= 2 /\ IsSet(LastAct) /\ ~IsSet(hist[Len(hist) - 1])) =>
+                      LET r == hist[Len(hist) - 1]  s == LastAct IN
+                      \A m \in Targets(s.n, s.f) : IsPrefix(Append(r.n, r.k), m) => val[<<m, s.f>>] = s.v
+InvReplaceAfterSet == (Mode = "tree" /\ Len(hist) >= 2 /\ ~IsSet(LastAct) /\ IsSet(hist[Len(hist) - 1])) =>
+                      LET s == hist[Len(hist) - 1]  r == LastAct IN
+                      \A m \in Declaring[s.f] : IsPrefix(Append(r.n, r.k), m) =>
+                          val[<<m, s.f>>] = IF r.inh /\ Declares(r.n, s.f) THEN val[<<r.n, s.f>>] ELSE "built"
+(* table sanity: every node has a class, every time-window field is declared everywhere, slots are nodes *)
 InvTable       == /\ \A n \in Nodes : NodeClass[n] \in DOMAIN ClassTable
                   /\ Declaring["time_begin"] = Nodes /\ Declaring["time_end"] = Nodes
                   /\ MCFields \subseteq AllScalars
+                  /\ {Append(s[1], s[2]) : s \in Slots} = Nodes \ {<<>>}
+                  /\ CleanSlot(<<>>, "dynamic_obstacle") /\ ~CleanSlot(<<>>, "occupancy")
 
 (* ------------------------------ laws, part (2) ------------------------------ *)
 InvVerdictTotal == Mode = "window" => \A t \in 0..TMax : Verdict(HasOcc(o, t), o, t, b, e) \in {"T", "F", "EITHER"}
@@ -79,6 +117,13 @@ InvLanelets     == Mode = "window" => \A ids \in SUBSET {101, 102, 999} :
 EmitTree  == (Mode = "tree" /\ hist = <<>>) =>
                  \A n \in Nodes : PrintT(<<"CASE", ToJson([part |-> "tree", node |-> n, class |-> NodeClass[n],
                                                           declared |-> ScalarsOf(NodeClass[n]), fields |-> AllScalars])>>)
+(* replace: one case per slot (node, child field) of the table; clean = the name does not recur below the node *)
+EmitSlots == (Mode = "tree" /\ hist = <<>>) =>
+                 \A s \in Slots : PrintT(<<"CASE", ToJson([part |-> "replace", node |-> s[1], child |-> s[2],
+                                                            class |-> SlotClass(s[1], s[2]),
+                                                            clean |-> IF CleanSlot(s[1], s[2]) THEN 1 ELSE 0,
+                                                            scalars |-> ScalarsOf(SlotClass(s[1], s[2])),
+                                                            fields |-> AllScalars])>>)
 EmitWin   == Mode = "window" => PrintT(<<"CASE", ToJson([part |-> "window", desc |-> o, b |-> b, e |-> e,
                                                           must |-> Cardinality(DrawnMust(o, b, e)),
                                                           band |-> Cardinality(DrawnMay(o, b, e) \ DrawnMust(o, b, e))])>>)
